@@ -158,6 +158,9 @@ var judges = map[string]func(c *Case, impl string) bool{
 		}
 		return seen
 	},
+	"stable": func(_ *Case, impl string) bool {
+		return strings.HasSuffix(impl, ";stable=true") && !strings.Contains(impl, "panic")
+	},
 	"no-panic": func(_ *Case, impl string) bool { return !strings.Contains(impl, "panic") },
 }
 
